@@ -335,12 +335,12 @@ func randAny(r *rng, c *genCfg, depth int) *hv {
 	case 10:
 		return &hv{kind: "simple", i: int64(r.pick([]int{0, 16, 19, 32, 100, 255}))}
 	case 11:
-		if c.goSide && r.chance(1, 3) {
+		if c.goSide && c.invalid > 0 && r.chance(1, 3) {
 			return &hv{kind: "bytesnil"}
 		}
 		return hBytes(randBytes(r))
 	case 12:
-		if c.goSide && r.chance(1, 4) {
+		if c.goSide && c.invalid > 0 && r.chance(1, 4) {
 			return &hv{kind: "opaque"}
 		}
 		return hInt(randInt(r))
@@ -412,7 +412,7 @@ func valueFor(r *rng, c *genCfg, label int64, prot bool, present []*hv) *hv {
 		}
 		return &hv{kind: "text", s: []byte(r.pick2s(mediaTypes))}
 	case 4, 5, 6, 9, 12:
-		if c.goSide && r.chance(1, 25) {
+		if c.goSide && c.invalid > 0 && r.chance(1, 25) {
 			return &hv{kind: "bytesnil"}
 		}
 		return hBytes(randBytes(r))
